@@ -51,6 +51,12 @@ pub const HOST_PATTERNS: &[&str] = &[
     "(?i)^mc\\.",
     "^nomatch$",
     "^(localhost|192\\.168\\.0\\.1)$",
+    // escapes and classes whose meaning depends on their case
+    "^\\S+\\.example\\.net$",
+    "^\\D+$",
+    "^[A-Z]",
+    "\\W",
+    "^MC\\.",
 ];
 pub const KEYS: &[&str] = &["region", "status", "type", "players", ""];
 pub const VALUES: &[&str] = &["eu", "us", "us-2", "", "10"];
